@@ -128,3 +128,159 @@ class Effects(object):
                     for a in args:   # indirect call: assume it writes through everything
                         written |= roots_of(a)
         return written
+
+
+# ---------------------------------------------------------------- R10: field-sensitive access paths
+class PathEffects(object):
+    """For every function: which access paths, rooted at its pointer parameters, it may write / read.
+
+    A path is a suffix string over the parameter:  '[]' (element or *p), '->f' (field through the pointer), e.g.
+    '->Store->nzval[]'.  Flow-insensitive points-to of locals into parameter memory; callee summaries substituted
+    through argument binding (bottom-up over the acyclic direct call graph); external functions from EXTERNAL_WRITES.
+    '?' means "somewhere below this prefix" (used when an unknown callee or an unresolved cast is involved)."""
+
+    def __init__(self, prog):
+        self.prog = prog
+        self.writes = {}
+        self.reads = {}
+        for f in prog.topo_bottom_up():
+            w, r = self.analyse(f)
+            self.writes[(f.unit, f.name)] = w
+            self.reads[(f.unit, f.name)] = r
+
+    def analyse(self, f):
+        pidx = {pid: i for i, (_, pid, t) in enumerate(f.params)}
+        pts = {}       # local var id -> set of (param, suffix)
+        assigns = []
+        for n in f.body.walk():
+            if n.k == 'Var' and n.c:
+                assigns.append((n.a['id'], n.c[0]))
+            elif n.k == 'Assign' and n.a['op'] == '=':
+                l = strip(n.c[0])
+                if l.k == 'Ref' and l.a.get('dk') == 'VarDecl':
+                    assigns.append((l.a['id'], n.c[1]))
+                elif l.k == 'Ref' and l.a.get('id') in pidx:
+                    assigns.append((l.a['id'], n.c[1]))
+
+        def pval(e, depth=0):
+            """set of (param, suffix) the pointer VALUE of e may equal"""
+            e = strip(e)
+            k = e.k
+            if k == 'Ref':
+                vid = e.a.get('id')
+                out = set(pts.get(vid, ()))
+                if vid in pidx:
+                    out.add((pidx[vid], ''))
+                return out
+            if k == 'Member':
+                if e.a['arrow']:
+                    return {(p, s + '->' + e.a['name']) for (p, s) in pval(e.c[0])}
+                return {(p, s + '.' + e.a['name']) for (p, s) in lloc(e.c[0])}
+            if k == 'Index':
+                return {(p, s + '[]') for (p, s) in pval(e.c[0])}
+            if k == 'Unary':
+                op = e.a['op']
+                if op == '&':
+                    inner = strip(e.c[0])
+                    if inner.k == 'Index':
+                        return pval(inner.c[0])
+                    return {(p, s + '@') for (p, s) in lloc(inner)}
+                if op == '*':
+                    return {(p, s + '[]') for (p, s) in pval(e.c[0])}
+                if op in ('++', '--'):
+                    return pval(e.c[0])
+                return set()
+            if k == 'Binary' and e.a['op'] in ('+', '-'):
+                return pval(e.c[0]) | pval(e.c[1])
+            if k == 'Assign':
+                return pval(e.c[1])
+            if k == 'Cond':
+                return pval(e.c[1]) | pval(e.c[2])
+            return set()
+
+        def lloc(e):
+            """set of (param, suffix) LOCATIONS denoted by l-value e"""
+            e = strip(e)
+            k = e.k
+            if k == 'Index':
+                return {(p, deat(s) + '[]') for (p, s) in pval(e.c[0])}
+            if k == 'Unary' and e.a['op'] == '*':
+                return {(p, deat(s) + '[]') if not s.endswith('@') else (p, s[:-1]) for (p, s) in pval(e.c[0])}
+            if k == 'Member':
+                if e.a['arrow']:
+                    return {(p, deat(s) + '->' + e.a['name']) if not s.endswith('@') else (p, s[:-1] + '.' + e.a['name']) for (p, s) in pval(e.c[0])}
+                return {(p, s + '.' + e.a['name']) for (p, s) in lloc(e.c[0])}
+            return set()
+
+        def deat(s):
+            return s[:-1] if s.endswith('@') else s
+
+        changed = True
+        rounds = 0
+        while changed and rounds < 20:
+            changed = False
+            rounds += 1
+            for vid, rhs in assigns:
+                v = {(p, s) for (p, s) in pval(rhs) if len(s) < 80}
+                cur = pts.setdefault(vid, set())
+                if not v <= cur:
+                    cur |= v
+                    changed = True
+        W = {}
+        R = {}
+
+        def addw(locs):
+            for (p, s) in locs:
+                W.setdefault(p, set()).add(s)
+
+        def addr(locs):
+            for (p, s) in locs:
+                R.setdefault(p, set()).add(s)
+
+        for n in f.body.walk():
+            if n.k == 'Assign':
+                lv = strip(n.c[0])
+                if lv.k != 'Ref':
+                    addw(lloc(lv))
+            elif n.k == 'Unary' and n.a['op'] in ('++', '--'):
+                lv = strip(n.c[0])
+                if lv.k != 'Ref':
+                    addw(lloc(lv))
+            elif n.k == 'Call':
+                name = callee_name(n)
+                args = n.c[1:]
+                tgt = self.prog.resolve(name, f.unit) if name else None
+                if tgt is not None:
+                    cw = self.writes.get((tgt.unit, tgt.name), {})
+                    cr = self.reads.get((tgt.unit, tgt.name), {})
+                    for i, a in enumerate(args):
+                        pv = pval(a)
+                        for t in cw.get(i, ()):
+                            addw({(p, join(s, t)) for (p, s) in pv})
+                        for t in cr.get(i, ()):
+                            addr({(p, join(s, t)) for (p, s) in pv})
+                else:
+                    ew = external_writes(name, len(args)) if name else None
+                    for i, a in enumerate(args):
+                        pv = pval(a)
+                        if not pv:
+                            continue
+                        if ew is None or i in ew:
+                            addw({(p, join(s, '[]')) for (p, s) in pv})
+                        addr({(p, join(s, '[]')) for (p, s) in pv})
+            if n.k in ('Index', 'Member') or (n.k == 'Unary' and n.a['op'] == '*'):
+                if n.k == 'Member' and not n.a['arrow']:
+                    continue
+                addr(lloc(n))
+        return W, R
+
+
+def join(s, t):
+    """location suffix s of the actual argument (a pointer value) extended by the callee's path t"""
+    if s.endswith('@'):
+        s = s[:-1]
+        if t.startswith('[]'):
+            return s + t[2:]
+        if t.startswith('->'):
+            return s + '.' + t[2:]
+    return s + t
